@@ -149,4 +149,271 @@ theorem add_alignment_eq_model (g : G) (aln : Rs.Poa.Alignment) (seq : List Nat)
     | panic => rw [hf] at h; cases h
     | fuel => rw [hf] at h; cases h
 
+/-! ### totality on valid operation lists -/
+
+/-- the operation list is valid for a query of length `n` and a graph with `m` nodes, from consumption index `i`: every consumed
+position exists, every named node exists (`Yclip(_, r)` continues at `r`) -/
+def SeqOK (n m : Nat) : Nat → List POp → Prop
+  | _, [] => True
+  | i, .m none :: r => i < n ∧ SeqOK n m (i + 1) r
+  | i, .m (some (_, p)) :: r => i < n ∧ p < m ∧ SeqOK n m (i + 1) r
+  | i, .i _ :: r => i < n ∧ SeqOK n m (i + 1) r
+  | i, .d _ :: r => SeqOK n m i r
+  | i, .x _ :: r => SeqOK n m i r
+  | _, .y _ c :: r => SeqOK n m c r
+
+theorem idx_getD {α : Type} (l : List α) (i : Nat) (d : α) (h : i < l.length) : Rs.idx l i = ok (l.getD i d) := by
+  rw [Rs.idx_ok h]; simp [List.getD, List.getElem?_eq_getElem h]
+
+theorem zipIdx_mem_lt {α : Type} : ∀ (l : List α) (k0 : Nat) (x : α) (i : Nat), (x, i) ∈ l.zipIdx k0 → i < k0 + l.length
+  | [], k0, x, i, h => by simp at h
+  | a :: l, k0, x, i, h => by
+    simp only [List.zipIdx_cons, List.mem_cons, Prod.mk.injEq] at h
+    rcases h with ⟨_, rfl⟩ | h
+    · simp
+    · have := zipIdx_mem_lt l (k0 + 1) x i h
+      simp only [List.length_cons]; omega
+
+theorem findEdge_lt (es : WEdges) (u v k : Nat) (h : findEdge es u v = some k) : k < es.length := by
+  unfold findEdge at h
+  simp only at h
+  have hm := List.mem_of_getLast? h
+  simp only [List.mem_map, List.mem_filter] at hm
+  obtain ⟨⟨e, i⟩, ⟨hmem, _⟩, rfl⟩ := hm
+  have := zipIdx_mem_lt es 0 e i hmem
+  omega
+
+theorem bumpEdge_mem : ∀ (es : WEdges) (k : Nat) (e' : Nat × Nat × Int), e' ∈ bumpEdge es k →
+    e' ∈ es ∨ ∃ e ∈ es, e' = (e.1, e.2.1, e.2.2 + 1)
+  | [], k, e', h => by simp [bumpEdge] at h
+  | a :: r, 0, e', h => by
+    simp only [bumpEdge, List.mem_cons] at h
+    rcases h with rfl | h
+    · right; exact ⟨a, List.mem_cons_self .., rfl⟩
+    · left; exact List.mem_cons_of_mem _ h
+  | a :: r, k + 1, e', h => by
+    simp only [bumpEdge, List.mem_cons] at h
+    rcases h with rfl | h
+    · left; exact List.mem_cons_self ..
+    · rcases bumpEdge_mem r k e' h with h1 | ⟨e, he, h1⟩
+      · left; exact List.mem_cons_of_mem _ h1
+      · right; exact ⟨e, List.mem_cons_of_mem _ he, h1⟩
+
+/-- invariant of the addition loop: nodes in range, weights with room for `K` more increments -/
+structure AInv (head m K : Nat) (st : AddSt) : Prop where
+  head : head < st.g.labels.length
+  prev : st.prev < st.g.labels.length
+  m : m ≤ st.g.labels.length
+  hK : (K : Int) < 2147483647
+  hw : ∀ e ∈ st.g.es, -2147483648 ≤ e.2.2 ∧ e.2.2 + (K : Int) ≤ 2147483647
+
+theorem addEdge_ok' (g : G) (u v : Nat) (hu : u < g.labels.length) (hv : v < g.labels.length) :
+    Rs.Poa.addEdge g u v 1 = ok (g.addEdge u v) := by
+  unfold Rs.Poa.addEdge; rw [if_pos ⟨hu, hv⟩]; rfl
+
+theorem edgeWeightAdd_ok' (g : G) (k : Nat) (hk : k < g.es.length)
+    (hw : -2147483648 ≤ g.es[k].2.2 ∧ g.es[k].2.2 + 1 ≤ 2147483647) :
+    Rs.Poa.edgeWeightAdd g k 1 = ok { g with es := bumpEdge g.es k } := by
+  unfold Rs.Poa.edgeWeightAdd
+  have hge : g.es[k]? = some g.es[k] := List.getElem?_eq_getElem hk
+  rw [hge]
+  simp only
+  have : InS 32 (g.es[k].2.2 + 1) := by
+    unfold InS
+    have e : ((2 ^ (32 - 1) : Nat) : Int) = 2147483648 := by decide
+    rw [e]; omega
+  rw [Rs.iadd_ok this]
+  simp [bumpEdge_eq_set g.es k _ hge]
+
+/-- the model's step keeps the invariant (one increment less to go) -/
+theorem addStep_inv (head m K : Nat) (seq : List Nat) (st : AddSt) (op : POp) (hinv : AInv head m (K + 1) st)
+    (hp : ∀ a p, op = .m (some (a, p)) → p < m) : AInv head m K (addStep head seq st op) := by
+  obtain ⟨g, prev, i, nc⟩ := st
+  obtain ⟨h1, h2, h3, h4, h5⟩ := hinv
+  simp only at h1 h2 h3 h5
+  have hK : (K : Int) < 2147483647 := by omega
+  have hw0 : ∀ e ∈ g.es, -2147483648 ≤ e.2.2 ∧ e.2.2 + (K : Int) ≤ 2147483647 := fun e he => by have := h5 e he; omega
+  have hwadd : ∀ (u v : Nat), ∀ e ∈ g.es ++ [(u, v, (1 : Int))], -2147483648 ≤ e.2.2 ∧ e.2.2 + (K : Int) ≤ 2147483647 := by
+    intro u v e he
+    rcases List.mem_append.mp he with he | he
+    · exact hw0 e he
+    · simp only [List.mem_singleton] at he; subst he; simp only; omega
+  have hwadd2 : ∀ (u v u' v' : Nat), ∀ e ∈ g.es ++ [(u, v, (1 : Int))] ++ [(u', v', (1 : Int))],
+      -2147483648 ≤ e.2.2 ∧ e.2.2 + (K : Int) ≤ 2147483647 := by
+    intro u v u' v' e he
+    rcases List.mem_append.mp he with he | he
+    · exact hwadd u v e he
+    · simp only [List.mem_singleton] at he; subst he; simp only; omega
+  have hwbump : ∀ k, ∀ e ∈ bumpEdge g.es k, -2147483648 ≤ e.2.2 ∧ e.2.2 + (K : Int) ≤ 2147483647 := by
+    intro k e he
+    rcases bumpEdge_mem g.es k e he with he | ⟨e0, he0, rfl⟩
+    · exact hw0 e he
+    · have := h5 e0 he0; simp only; omega
+  cases op with
+  | m pq =>
+    cases pq with
+    | none =>
+      simp only [addStep, G.addNode, G.addEdge]
+      by_cases hc : (decide (seq.getD i 0 ≠ g.labels.getD head 0) && decide (seq.getD i 0 ≠ wildcard)) = true <;> cases nc <;>
+        simp only [hc, if_true, if_false, Bool.false_eq_true] <;>
+        (refine ⟨?_, ?_, ?_, hK, ?_⟩ <;> simp only [List.length_append, List.length_singleton] <;>
+          first | omega | exact hw0 | exact hwadd _ _ | exact hwadd2 _ _ _ _ | skip)
+    | some pq =>
+      obtain ⟨a, p⟩ := pq
+      have hpm := hp a p rfl
+      simp only [addStep, G.addNode, G.addEdge]
+      by_cases hc : (decide (seq.getD i 0 ≠ g.labels.getD p 0) && decide (seq.getD i 0 ≠ wildcard)) = true
+      · simp only [hc, if_true]
+        refine ⟨?_, ?_, ?_, hK, ?_⟩ <;> simp only [List.length_append, List.length_singleton] <;>
+          first | omega | exact hwadd _ _
+      · simp only [hc, if_false, Bool.false_eq_true]
+        cases hf : findEdge g.es prev p with
+        | some k => exact ⟨h1, by simp only; omega, h3, hK, hwbump k⟩
+        | none =>
+          simp only
+          split
+          · exact ⟨h1, by simp only; omega, h3, hK, hwadd _ _⟩
+          · exact ⟨h1, by simp only; omega, h3, hK, hw0⟩
+  | d pq => exact ⟨h1, h2, h3, hK, hw0⟩
+  | i p =>
+    cases p <;> simp only [addStep, G.addNode, G.addEdge] <;> cases nc <;>
+      (try simp only [if_true, if_false, Bool.false_eq_true]) <;>
+      (refine ⟨?_, ?_, ?_, hK, ?_⟩ <;> simp only [List.length_append, List.length_singleton] <;>
+        first | omega | exact hw0 | exact hwadd _ _)
+  | x r => exact ⟨h1, h2, h3, hK, hw0⟩
+  | y a b => exact ⟨h1, h2, h3, hK, hw0⟩
+
+/-- under the invariant and with the consumed position / named node in range, one step of the translated loop returns the
+model's step -/
+theorem for1_total (seq : List Nat) (head m K : Nat) (st : AddSt) (op : POp) (hinv : AInv head m (K + 1) st)
+    (hn : seq.length < 2 ^ 64)
+    (hi : (∀ pq, op = .m pq → st.i < seq.length) ∧ (∀ p, op = .i p → st.i < seq.length))
+    (hp : ∀ a p, op = .m (some (a, p)) → p < m) :
+    add_alignment_for1 seq head (st.g, st.prev, st.i, st.notConnected) op = ok (rep (addStep head seq st op)) := by
+  obtain ⟨g, prev, i, nc⟩ := st
+  obtain ⟨h1, h2, h3, h4, h5⟩ := hinv
+  simp only at h1 h2 h3 h5 hi
+  have l1 := Nat.lt_succ_of_lt h1
+  have l2 := Nat.lt_succ_of_lt h2
+  have l3 := Nat.lt_succ_self g.labels.length
+  unfold add_alignment_for1
+  simp only [rep, addStep, wildcard, Rs.Poa.addNode, G.addNode, Rs.Poa.findEdge]
+  cases op with
+  | m pq =>
+    have hil := hi.1 pq rfl
+    have e1 := idx_getD seq i 0 hil
+    have e3 : Rs.add 64 i 1 = ok (i + 1) := Rs.add_ok (by omega)
+    cases pq with
+    | none =>
+      have e2 : Rs.Poa.nodeWeight g head = ok (g.labels.getD head 0) := idx_getD _ _ _ h1
+      simp only [e1, e2, e3, Res.ok_bind]
+      generalize seq.getD i 0 = c
+      generalize g.labels.getD head 0 = lh
+      have s1 : (lh = c) ↔ (c = lh) := eq_comm
+      have s2 : (88 = c) ↔ (c = 88) := eq_comm
+      cases nc <;> by_cases hc1 : c = lh <;> by_cases hc2 : c = 88 <;>
+        simp [s1, s2, hc1, hc2, Rs.Poa.addEdge, G.addEdge, e3, h1, h2, l1, l2, l3]
+    | some pq =>
+      obtain ⟨a, p⟩ := pq
+      have hpm : p < g.labels.length := Nat.lt_of_lt_of_le (hp a p rfl) h3
+      have l4 := Nat.lt_succ_of_lt hpm
+      have e2 : Rs.Poa.nodeWeight g p = ok (g.labels.getD p 0) := idx_getD _ _ _ hpm
+      simp only [e1, e2, e3, Res.ok_bind]
+      generalize seq.getD i 0 = c
+      generalize g.labels.getD p 0 = lh
+      have s1 : (lh = c) ↔ (c = lh) := eq_comm
+      have s2 : (88 = c) ↔ (c = 88) := eq_comm
+      have s3 : (head = prev) ↔ (prev = head) := eq_comm
+      have s4 : (p = prev) ↔ (prev = p) := eq_comm
+      cases hf : findEdge g.es prev p with
+      | none =>
+        by_cases hc1 : c = lh <;> by_cases hc2 : c = 88 <;> by_cases hp1 : prev = head <;> by_cases hp2 : prev = p <;>
+          simp [s1, s2, s3, s4, hc1, hc2, hf, hp1, hp2, Rs.Poa.addEdge, G.addEdge, e3, h1, h2, hpm, l1, l2, l3, l4]
+      | some k =>
+        have hk := findEdge_lt g.es prev p k hf
+        have hwk := h5 g.es[k] (List.getElem_mem hk)
+        have e4 := edgeWeightAdd_ok' g k hk ⟨hwk.1, by have := hwk.2; omega⟩
+        by_cases hc1 : c = lh <;> by_cases hc2 : c = 88 <;>
+          simp [s1, s2, s3, s4, hc1, hc2, hf, e4, Rs.Poa.addEdge, G.addEdge, e3, h1, h2, hpm, l1, l2, l3, l4]
+  | d pq => simp
+  | i p =>
+    have hil := hi.2 p rfl
+    have e1 := idx_getD seq i 0 hil
+    have e3 : Rs.add 64 i 1 = ok (i + 1) := Rs.add_ok (by omega)
+    simp only [e1, e3, Res.ok_bind]
+    cases p <;> cases nc <;> simp [Rs.Poa.addEdge, G.addEdge, e3, h1, h2, l1, l2, l3]
+  | x r => simp
+  | y a b => simp
+
+theorem addStep_i (head : Nat) (seq : List Nat) (st : AddSt) (op : POp) :
+    (addStep head seq st op).i = match op with
+      | .m _ => st.i + 1
+      | .i _ => st.i + 1
+      | .d _ => st.i
+      | .x _ => st.i
+      | .y _ c => c := by
+  obtain ⟨g, prev, i, nc⟩ := st
+  cases op with
+  | m pq =>
+    cases pq with
+    | none => simp only [addStep]; split <;> split <;> rfl
+    | some pq => obtain ⟨a, p⟩ := pq; simp only [addStep]; split <;> rfl
+  | d pq => rfl
+  | i p => cases p <;> rfl
+  | x r => rfl
+  | y a b => rfl
+
+theorem fold_total (seq : List Nat) (head m : Nat) (hn : seq.length < 2 ^ 64) : ∀ (ops : List POp) (st : AddSt),
+    AInv head m ops.length st → SeqOK seq.length m st.i ops →
+    List.foldlM (add_alignment_for1 seq head) (st.g, st.prev, st.i, st.notConnected) ops =
+      ok (rep (ops.foldl (addStep head seq) st))
+  | [], st, _, _ => by simp [rep]
+  | op :: ops, st, hinv, hs => by
+    have hi : (∀ pq, op = .m pq → st.i < seq.length) ∧ (∀ p, op = .i p → st.i < seq.length) := by
+      constructor
+      · intro pq hh; subst hh
+        cases pq with
+        | none => exact hs.1
+        | some pq => obtain ⟨a, p⟩ := pq; exact hs.1
+      · intro p hh; subst hh; exact hs.1
+    have hp : ∀ a p, op = .m (some (a, p)) → p < m := by
+      intro a p hh; subst hh; exact hs.2.1
+    have e1 := for1_total seq head m ops.length st op hinv hn hi hp
+    have hinv' := addStep_inv head m ops.length seq st op hinv hp
+    have hs' : SeqOK seq.length m (addStep head seq st op).i ops := by
+      rw [addStep_i]
+      cases op with
+      | m pq =>
+        cases pq with
+        | none => exact hs.2
+        | some pq => obtain ⟨a, p⟩ := pq; exact hs.2.2
+      | d pq => exact hs
+      | i p => exact hs.2
+      | x r => exact hs
+      | y a b => exact hs
+    simp only [List.foldlM_cons, e1, Res.ok_bind, List.foldl_cons]
+    exact fold_total seq head m hn ops _ hinv' hs'
+
+/-- **the translated `Poa::add_alignment` returns on every valid operation list** (and then returns the model's graph): non-empty
+graph whose topological head is a node, sequence shorter than `2^64`, the list valid for sequence and graph (`SeqOK`), fewer than
+`2^31 − 1` operations and every edge weight with room for that many increments (the explicit size hypothesis for `weight + 1`) -/
+theorem add_alignment_total (g : G) (aln : Rs.Poa.Alignment) (seq : List Nat)
+    (hh : ∃ hd, (topo g.labels.length g.es).head? = some hd ∧ hd < g.labels.length) (hn : seq.length < 2 ^ 64)
+    (hK : (aln.operations.length : Int) < 2147483647)
+    (hw : ∀ e ∈ g.es, -2147483648 ≤ e.2.2 ∧ e.2.2 + (aln.operations.length : Int) ≤ 2147483647)
+    (hs : SeqOK seq.length g.labels.length 0 aln.operations) :
+    add_alignment g aln seq = ok (addAlignment g aln.operations seq) := by
+  obtain ⟨hd, hhd, hlt⟩ := hh
+  have hD : (topo g.labels.length g.es).headD 0 = hd := by
+    cases hl : topo g.labels.length g.es with
+    | nil => rw [hl] at hhd; cases hhd
+    | cons a l => rw [hl] at hhd; simp at hhd; simp [hhd]
+  unfold add_alignment addAlignment
+  simp only [Rs.Poa.topoOrder, hhd, Rs.expect_some, Res.ok_bind, hD]
+  have := fold_total seq hd g.labels.length hn aln.operations { g := g, prev := hd }
+    ⟨hlt, hlt, Nat.le_refl _, hK, hw⟩ hs
+  simp only at this
+  rw [this]
+  simp [rep]
+
 end RbV.Thm.GenSrcPoaAdd
